@@ -15,10 +15,11 @@ Definition sEnd (e : res unit) : string := sRes (fun _ => "END") e.
 (* the provided Iterator methods of a tag iterator are iterated next(): nth(k) on a fresh iterator is the k-th item of the
    run, None behind a complete run, and the run's panic otherwise; count() is the number of items of a complete run *)
 Definition nth_ks (n : N) : list N := [0; 1; n - 1; n; n + 1; n + 2; n + 3; n + 7].
-Definition lines_iter_nth (h : hkind) (items : list dref) (e : res unit) : list string :=
-  (map (fun k => line "tags_nth" (sN k ++ " " ++ match nth_error items (N.to_nat k) with
-                                                  | Some t => "VAL " ++ sDref h t
-                                                  | None => sRes (fun _ => "none") e
+Definition lines_iter_nth (p : profile) (h : hkind) (m : mem) (b blen : N) (items : list dref) (e : res unit) : list string :=
+  (map (fun k => line "tags_nth" (sN k ++ " " ++ match tagiter_nth p h m b blen 0 (N.to_nat k) with
+                                                  | Val (Some t, _) => "VAL " ++ sDref h t
+                                                  | Val (None, _) => "VAL none"
+                                                  | x => sRes (fun _ => "") x
                                                   end)) (nth_ks (len items))
    ++ [line "tags_count" (sRes (fun _ => sN (len items)) e);
        (* next() once, then clone().count(): the clone continues behind the first tag *)
@@ -30,7 +31,7 @@ Definition lines_iter_nth (h : hkind) (items : list dref) (e : res unit) : list 
 (* the generic walk of a loaded boot information *)
 Definition lines_walk (p : profile) (m : mem) (r : dref) : list string :=
   let '(items, e) := tagiter_run (iter_fuel (tags_len r)) p HTagH m (tags_b r) (tags_len r) 0 in
-  (map (fun t => line "tag" (sTagLine m t)) items ++ [line "tags" (sEnd e)] ++ lines_iter_nth HTagH items e)%list.
+  (map (fun t => line "tag" (sTagLine m t)) items ++ [line "tags" (sEnd e)] ++ lines_iter_nth p HTagH m (tags_b r) (tags_len r) items e)%list.
 
 Definition run_mbi_core (p : profile) (m : mem) : res dref * list string :=
   let l := mbi_load p false m in
